@@ -498,6 +498,46 @@ def specials():
         return go
     out.append(("qcow2", "two-header-fields-altered-together", qcow2_pairs, 600, 768))
 
+    def qcow2_ext_walk(work):
+        """The header-extension walk with an extension area that formally spans beyond 4 GiB and lengths near 2^32: every
+        8-aligned landing offset, over headers whose free words hold small values (so that a walk that ever came back into the
+        header would keep moving through it)."""
+        r = random.Random(4242)
+        blobs = []
+        for _ in range(1500):
+            hl = r.choice([104, 112])
+            small = lambda: r.choice([0, 8, 16, 24, 40, 56, 64, 72, 88, 96, 3, 5, 104])   # noqa: E731
+            big = lambda: r.choice([1, 2, 0x100, 0x7FFFFFFF])   # noqa: E731
+            w = [0] * 28
+            w[0], w[1] = 0x514649FB, 3
+            w[2], w[3] = r.choice([1, 2]), small() if r.random() < 0.5 else r.choice([0x20, 0x70, 0x1000])  # backing_file_offset >= 2^32
+            w[4], w[5] = r.choice([1, 10, 64]), r.choice([9, 12, 16, 16, 21])                                   # backing_file_size, cluster_bits
+            w[6], w[7] = big(), small()                                                                         # size
+            w[8], w[9] = 0, r.choice([1, 1, 8, 56])                                                             # crypt_method, l1_size
+            w[10], w[11] = big(), small()                                                                       # l1_table_offset
+            w[12], w[13] = big(), small()                                                                       # refcount_table_offset
+            w[14], w[15] = r.choice([1, 2, 7]), small()                                                         # refcount_table_clusters, nb_snapshots
+            w[16], w[17] = big(), small()                                                                       # snapshots_offset
+            w[18], w[19] = 0, 0                                                                                 # incompatible_features
+            w[20], w[21] = big(), small()                                                                       # compatible_features
+            w[22], w[23] = big(), small()                                                                       # autoclear_features
+            w[24], w[25] = 4, hl                                                                                # refcount_order, header_length
+            w[26], w[27] = 0, 0
+            hdr = struct.pack(">28I", *w)[:hl]
+            target = r.randrange(0, 128, 8)
+            elen = ((1 << 32) + target - (hl + 8) - r.randrange(0, 8)) & 0xFFFFFFFF
+            blobs.append(hdr + struct.pack(">II", r.choice([0x12345678, 0x6803f857, 0xE2792ACA]), elen) + bytes(96))
+
+        def go():
+            from dissect.hypervisor.disk import qcow2
+            for blob in blobs:
+                try:
+                    qcow2.QCow2(io.BytesIO(blob), backing_file=qcow2.ALLOW_NO_BACKING_FILE)
+                except Exception:  # noqa: BLE001
+                    pass
+        return go
+    out.append(("qcow2", "extension-walk-lengths-near-4GiB", qcow2_ext_walk, 400, 1))
+
     # text inputs cut at every character position / with every single delimiter removed: each parse must return or raise
     def text_cuts(text, parse, delims):
         def run(work):
